@@ -3,6 +3,9 @@
    functions; the engine reaches globals only through these functions. *)
 From Ink.Engine Require Import Api Tie.
 From Ink.Shell Require Import ObserverProofs.
+From Ink.Gen Require Import SaveGen.
+From Ink.Engine Require Import Save.
+From Ink.Shell Require Import HostFrame HostFrameLoad.
 
 Theorem complete_reports_final_values : forall (v v' : varstate) (m : list (text * value)),
   vs_patch v = None ->
@@ -78,3 +81,25 @@ Check restore_drops_lookahead : forall (w : world) (snap : sstate),
              /\ ss_vars (w_state w') = (ss_vars snap) <| vs_patch := None |>
              /\ w_snapshot w' = None.
 Print Assumptions restore_drops_lookahead.
+
+(* ---------------- the host's registrations stay in place ---------------- *)
+(* observers, external bindings, the error handler, the fallbacks flag and the program are changed
+   by no story operation (continue in all forms, choose, jump, evaluate, set a variable, switch /
+   remove flows, RESET) and by no load, however the call ends — for the whole engine model *)
+Theorem registrations_survive_story_operations :
+  forall (I : iface) (sw : switches) (ops : list story_op) (w : world),
+    host_regs (run_story_ops I sw ops w) = host_regs w.
+Proof. exact HostFrame.registrations_survive. Qed.
+Check registrations_survive_story_operations :
+  forall (I : iface) (sw : switches) (ops : list story_op) (w : world),
+    host_regs (run_story_ops I sw ops w) = host_regs w.
+Print Assumptions registrations_survive_story_operations.
+
+Theorem registrations_survive_load :
+  forall (sp : ssite -> bool) (ssw : save_switches) (w : world) (j : json),
+    host_regs (snd (load_state sp ssw w j)) = host_regs w.
+Proof. exact HostFrameLoad.load_keeps_registrations. Qed.
+Check registrations_survive_load :
+  forall (sp : ssite -> bool) (ssw : save_switches) (w : world) (j : json),
+    host_regs (snd (load_state sp ssw w j)) = host_regs w.
+Print Assumptions registrations_survive_load.
